@@ -182,6 +182,69 @@ class BuiltIn:
         self.name, self.on = name, on
 
 
+def concretize(o, v, lo, hi):
+    """a symbolic integer that must lie in lo..hi: fork over the values; None when the path takes a value outside"""
+    if not is_sym(v):
+        return v if (isinstance(v, int) and not isinstance(v, bool) and lo <= v <= hi) else None
+    for k in range(lo, hi + 1):
+        if o.branch(v == z3.BitVecVal(k, 32)):
+            return k
+    return None
+
+
+STR_BUILTINS = ("len", "chars", "reverse", "contains", "index_of", "replace", "substring", "delete", "insert", "split")
+
+
+def str_builtin(o, name, recv, args):
+    """what the string methods MEAN (README, compiler/src/tests/builtins.rs; C14's oracle): offsets and `len` count bytes of the UTF-8
+    text, `chars` / `reverse` work on characters; index arguments are forked over the positions of the concrete string.
+    substring(b, t) / delete(b, t): the bytes [b, t), defined for 0 <= b <= t <= len; insert(x, i): 0 <= i <= len; split(m): [s[..m], s[m..]]
+    with m capped at len.  The offset-taking methods are used on ASCII text only (on multi-byte text their meaning is outside C14)."""
+    if not (isinstance(recv, tuple) and recv[0] == "str"):
+        raise Unsupported("string built-in on a non-string")
+    t = recv[1]
+    nb = len(t.encode("utf-8"))
+    sval = lambda a: a[1] if isinstance(a, tuple) and a[0] == "str" else None
+    if name == "len":
+        return nb
+    if name == "chars":
+        return ListRef([("str", c) for c in t])
+    if name == "reverse":
+        return ("str", t[::-1])
+    if name == "contains":
+        return sval(args[0]) in t
+    if name == "index_of":
+        k = t.encode("utf-8").find(sval(args[0]).encode("utf-8"))
+        return NIL if k < 0 else Some(k)
+    if name == "replace":
+        return ("str", t.replace(sval(args[0]), sval(args[1])))
+    if nb != len(t):
+        raise Unsupported("offset-taking string method on multi-byte text")
+    if name in ("substring", "delete"):
+        b = concretize(o, args[0], 0, nb)
+        if b is None:
+            raise Fail("str", "range start outside the string")
+        e = concretize(o, args[1], b, nb)
+        if e is None:
+            raise Fail("str", "range end outside the string")
+        return ("str", t[b:e] if name == "substring" else t[:b] + t[e:])
+    if name == "insert":
+        i = concretize(o, args[1], 0, nb)
+        if i is None:
+            raise Fail("str", "insertion index outside the string")
+        return ("str", t[:i] + sval(args[0]) + t[i:])
+    if name == "split":
+        m = concretize(o, args[0], 0, nb)
+        if m is None:
+            if is_sym(args[0]) and not o.branch(args[0] > z3.BitVecVal(nb, 32)):
+                raise Fail("str", "negative split position")
+            if not is_sym(args[0]) and args[0] < 0:
+                raise Fail("str", "negative split position")
+            m = nb
+        return ListRef([("str", t[:m]), ("str", t[m:])])
+    raise Unsupported("string built-in " + name)
+
+
 def list_builtin(o, name, recv, args):
     """semantics of the list built-ins on a ListRef (shared by both executors; what the built-ins themselves do is C13's engine-B
     kernel - here they only have to be the same on both sides).  -> return value or None"""
@@ -374,6 +437,12 @@ def arith(o, op, a, b):
     """i32 `a op b` with the interpreter's failure conditions; o = Oracle"""
     if op == "+" and isinstance(a, tuple) and isinstance(b, tuple) and a[0] == "str" and b[0] in ("str", "big"):
         return ("str", a[1] + str(b[1]))     # concatenation of concrete strings (a number is appended as it prints)
+    if op == "+" and isinstance(a, tuple) and a[0] == "str" and isinstance(b, int) and not isinstance(b, bool):
+        return ("str", a[1] + str(b))
+    if op == "+" and isinstance(b, tuple) and b[0] == "str" and isinstance(a, int) and not isinstance(a, bool):
+        return ("str", str(a) + b[1])
+    if op == "*" and isinstance(a, tuple) and a[0] == "str" and isinstance(b, int) and not isinstance(b, bool) and 0 <= b <= 8:
+        return ("str", a[1] * b)
     if any(isinstance(x, tuple) and x[0] == "big" for x in (a, b)):
         # concrete bigint arithmetic (int yields to bigint); anything symbolic is outside
         va, vb = (x[1] if isinstance(x, tuple) else x for x in (a, b))
